@@ -343,6 +343,52 @@ func c08DepthCheck(c *fw.Ctx, shape int) *fw.Violation {
 	return nil
 }
 
+// c08Shadow: a parameter (or a caller's local, or a pattern name) that has the name of an existing global or of a built-in is
+// what every frame further in sees -- a match arm of the function body, a nested callee that relies on the caller's name, a
+// match arm inside that callee -- for reading and for assignment; the global is untouched and back afterwards.
+func c08Shadow() []*progCase {
+	arm := func(subj Expr, body Expr) Expr {
+		return &MatchExpr{Subj: subj, Cases: []MatchCase{{Pats: []Expr{N("0")}, Body: S("zero")}, {Pats: []Expr{V("_")}, Body: body}}}
+	}
+	var out []*progCase
+	for _, name := range []string{"k", "num", "json"} {
+		k := func() Expr { return V(name) }
+		scale := &Func{Name: "scale", Params: []string{name}, Body: Blk(&Return{X: arm(k(), Bin("*", k(), N("10")))})}
+		setIn := &Func{Name: "setin", Params: []string{name}, Body: Blk(Ex(arm(N("1"), Asg("=", k(), Bin("+", k(), N("100"))))), &Return{X: k()})}
+		inner := &Func{Name: "inner", Body: Blk(&Return{X: arm(N("1"), Arr_(k(), arm(N("2"), k())))})}
+		outer := &Func{Name: "outer", Params: []string{name}, Body: Blk(&Return{X: CallE(V("inner"))})}
+		bound := &Func{Name: "bound", Params: []string{"p"}, Body: Blk(&Return{X: &MatchExpr{Subj: V("p"), Cases: []MatchCase{{Pats: []Expr{Arr_(V("kind"), k())}, Body: &MatchExpr{Subj: V("kind"), Cases: []MatchCase{{Pats: []Expr{S("a")}, Body: Bin("+", k(), N("1"))}, {Pats: []Expr{V("z")}, Body: Bin("+", k(), N("2"))}}}}}}})}
+		fact := &Func{Name: "fact", Params: []string{name}, Body: Blk(&Return{X: &MatchExpr{Subj: k(), Cases: []MatchCase{{Pats: []Expr{N("0")}, Body: N("1")}, {Pats: []Expr{V("_")}, Body: Bin("*", k(), CallE(V("fact"), Bin("-", k(), N("1"))))}}}})}
+		alts := &Func{Name: "alts", Params: []string{"x", "p"}, Body: Blk(&Return{X: &MatchExpr{Subj: V("p"), Cases: []MatchCase{{Pats: []Expr{Arr_(V("x"), N("0")), Arr_(V("y"), N("1"))}, Body: Arr_(V("x"), V("y"))}}}})}
+		pre := []Stmt{}
+		if name == "k" {
+			pre = append(pre, Ex(Asg("=", k(), N("7"))))
+		}
+		show := func() Stmt {
+			if name == "k" {
+				return Pr(S("global"), k())
+			}
+			return Pr(S("built-in still there"), &IsExpr{k(), "unknown"})
+		}
+		body := append(pre,
+			Pr(CallE(V("scale"), N("1")), CallE(V("scale"), N("2")), CallE(V("scale"), N("0"))), show(),
+			Pr(CallE(V("setin"), N("5"))), show(),
+			Pr(CallE(V("outer"), S("from outer"))), show(),
+			Pr(CallE(V("bound"), Arr_(S("a"), N("0"))), CallE(V("bound"), Arr_(S("b"), N("5")))), show(),
+			Pr(CallE(V("fact"), N("4"))), show(),
+			// a name bound by an alternative that then failed is not bound in the body the next alternative selects
+			Pr(CallE(V("alts"), N("100"), Arr_(N("5"), N("1")))),
+			Ex(Asg("=", V("gg"), S("global"))),
+			Pr(&MatchExpr{Subj: Arr_(N("7"), N("2")), Cases: []MatchCase{{Pats: []Expr{Arr_(V("gg"), N("1")), Arr_(V("hh"), N("2"))}, Body: Arr_(V("gg"), V("hh"))}}}),
+			Ex(&MatchExpr{Subj: Arr_(N("3"), S("keep")), Cases: []MatchCase{{Pats: []Expr{Arr_(V("gg"), S("skip")), Arr_(V("vv"), S("keep"))}, Block: Blk(Ex(Asg("=", V("gg"), Bin("*", V("vv"), N("2")))))}}}),
+			Pr(S("global gg"), V("gg")),
+		)
+		out = append(out, &progCase{P: &Program{Funcs: []*Func{scale, setIn, inner, outer, bound, fact, alts}, Rules: []*Rule{{Kind: "BEGIN", Body: Blk(body...)}}}})
+		out = append(out, &progCase{P: &Program{Funcs: []*Func{scale, setIn, inner, outer, bound, fact, alts}, Rules: []*Rule{{Body: Blk(body...)}}}, Files: []inFile{{"in.json", "[1,2]"}}})
+	}
+	return out
+}
+
 // c08MatchLocals: a name first created in a case body belongs to the case, whatever selected the case (a literal, a name,
 // an array pattern), at rule level, in a function, and as one site over several elements; afterwards it is unset.
 func c08MatchLocals() []*progCase {
@@ -393,7 +439,7 @@ func init() {
 	}
 	fw.Register(addTok(tokFramesC08, &fw.Prop{
 		ID: "C08",
-		Rule: "(0) names first created in a case body are gone after the case, for 6 kinds of selecting pattern x 3 placements; arguments and results are values when passed / returned: lists read, effect, read of one scalar location as arguments, and calls returning a global next to calls changing it (the call and return programs of C09's copy-time family); (i) functions of arity 0-2 with every body of <= 3 statements over 10 statements (assign a parameter / a new name / an existing global, store through a container parameter, three returns, a call of a second function, bounded recursion, showing the parameters) called with every list of 0-3 arguments over {scalar, global array, array literal, unset variable, missing member, index past the end} from 4 expression positions; every name is shown afterwards (unset or value); " +
+		Rule: "(0) a parameter named like a global or a built-in seen from frames further in (match arms, nested callees), read and assigned; names first created in a case body are gone after the case, for 6 kinds of selecting pattern x 3 placements; arguments and results are values when passed / returned: lists read, effect, read of one scalar location as arguments, and calls returning a global next to calls changing it (the call and return programs of C09's copy-time family); (i) functions of arity 0-2 with every body of <= 3 statements over 10 statements (assign a parameter / a new name / an existing global, store through a container parameter, three returns, a call of a second function, bounded recursion, showing the parameters) called with every list of 0-3 arguments over {scalar, global array, array literal, unset variable, missing member, index past the end} from 4 expression positions; every name is shown afterwards (unset or value); " +
 			"(ii) explicit-state search over histories of 15 frame-exit transitions (normal end, return from loops / match blocks, match with expression / block body, match blocks left by continue / break / next, calls left by next, nested call+match+call, 300-deep recursion, no case selected, surplus / missing arguments) fired from 4 nesting contexts, all histories of length <= 2 (thorough 3): the state is the evaluator's frame stack after the history and the invariant is that it equals the initial one-frame stack, output compared with the model; " +
 			"(iii) each transition over 5000 elements; (iv) the refusal depth of direct, mutual and through-match recursion found by bisection and required to be the same after 5000 repetitions of each transition; states = frame stacks and call classes reached",
 		Plan: func(t fw.Tier) int { return 3*nb + c08NCtx*nt + c08NCtx + len(c08Shapes) + 1 },
@@ -406,6 +452,10 @@ func init() {
 			case u == 3*nb+c08NCtx*nt+c08NCtx+len(c08Shapes):
 				// arguments and results are values at the moment they are passed / returned (programs shared with C09)
 				copyTimeRun(c, "call", "return")
+				for i, pc := range c08Shadow() {
+					pc, i := pc, i
+					c.Do(func() any { return c08Spec{Form: "shadow", Shape: i} }, func() *fw.Violation { v, _, _ := pc.check(c); return v })
+				}
 				for i, pc := range c08MatchLocals() {
 					pc, i := pc, i
 					c.Do(func() any { return c08Spec{Form: "matchlocals", Shape: i} }, func() *fw.Violation { v, _, _ := pc.check(c); return v })
@@ -469,6 +519,9 @@ func init() {
 				return nil
 			}
 			switch s.Form {
+			case "shadow":
+				v, _, _ := c08Shadow()[s.Shape].check(c)
+				return v
 			case "matchlocals":
 				v, _, _ := c08MatchLocals()[s.Shape].check(c)
 				return v
